@@ -1,6 +1,6 @@
 #!/bin/bash
 # Build everything the checks need from $VERIF_REPO (default /repo). Idempotent; cargo no-ops when fresh.
-# usage: build.sh [shim] [cli] [cli-dev] [vh] [vh-debug]   (default: shim cli vh)
+# usage: build.sh [shim] [cli] [cli-dev] [cli-vg] [vh] [vh-debug]   (default: shim cli vh)
 set -euo pipefail
 V=/verif
 REPO="${VERIF_REPO:-/repo}"
@@ -26,6 +26,11 @@ shim)
 cli)
   (cd "$REPO" && CARGO_TARGET_DIR="$T/cli$SFX" cargo build --release --features cli --offline -q 2> "$T/.cli-build.log") || { grep -E "^error" -A12 "$T/.cli-build.log" | head -60 >&2; echo "build.sh: copia CLI does not compile" >&2; exit 1; }
   test -x "$T/cli$SFX/release/copia" ;;
+cli-vg)
+  # valgrind 3.19 cannot execute what -C target-cpu=native (the repository's .cargo/config.toml) emits on this
+  # machine: the memcheck stages use a second release build of the same sources for the baseline x86-64-v2 ISA
+  (cd "$REPO" && RUSTFLAGS="-C target-cpu=x86-64-v2" CARGO_TARGET_DIR="$T/cli-vg$SFX" cargo build --release --features cli --offline -q 2> "$T/.clivg-build.log") || { grep -E "^error" -A12 "$T/.clivg-build.log" | head -60 >&2; echo "build.sh: copia CLI (valgrind build) does not compile" >&2; exit 1; }
+  test -x "$T/cli-vg$SFX/release/copia" ;;
 cli-dev)
   (cd "$REPO" && CARGO_TARGET_DIR="$T/cli$SFX" cargo build --features cli --offline -q 2> "$T/.clidev-build.log") || { grep -E "^error" -A12 "$T/.clidev-build.log" | head -60 >&2; echo "build.sh: copia CLI (dev) does not compile" >&2; exit 1; }
   test -x "$T/cli$SFX/debug/copia" ;;
